@@ -2,7 +2,7 @@
    manager's error code at exactly the code of that call's failure (0 on success), regardless of
    what it was before; imb_set_errno/imb_get_errno algebra; imb_get_strerror is total. *)
 From Coq Require Import String.
-From Coq Require Import ZArith List Bool Lia.
+From Coq Require Import ZArith List Bool Lia ZifyBool.
 From IMB Require Import Gen.GenConsts Gen.GenStrerror Mgr.Ring Mgr.Errno Proofs.RingProofs Proofs.JobProofs.
 Import ListNotations.
 Local Open Scope Z_scope.
@@ -241,7 +241,8 @@ Proof. split; [vm_compute; reflexivity|]. split; vm_compute; reflexivity. Qed.
 (* out-of-range values at or above IMB_ERR_MAX never reach libc *)
 Theorem strerror_above_max libc z : (IMB_ERR_MAX <= z)%Z -> imb_get_strerror libc z = Some "Unknown error".
 Proof.
+  (* independent of how the guard is written (>= MAX, > MAX - 1, ...): the comparison is decided by lia *)
   intros H. unfold imb_get_strerror, strerror_guards, guard_lookup.
-  replace (Z.geb z IMB_ERR_MAX) with true; [reflexivity|].
-  symmetry. apply Z.geb_le. exact H.
+  match goal with |- context [if ?b then _ else _] => replace b with true; [reflexivity|] end.
+  symmetry. lia.
 Qed.
